@@ -1734,6 +1734,7 @@ class Models(object):
                 return r
         if isinstance(a, Arr):
             ks = {self.kind_of(v) for v in a.items()} or {a.kind or 'f'}
+            ks = {'c' if k == 'z' else k for k in ks}        # 'z': complex with a definitely non-zero imaginary part
             for k in ('O', '?', 'c', 'f', 'i', 'b'):
                 if k in ks:
                     return k
@@ -1752,7 +1753,7 @@ class Models(object):
             return 'f' if a.n.is_real() and a.d.is_real() else 'c'
         k = getattr(a, 'kind_', None)
         if k is not None:
-            return k()
+            return 'c' if k() == 'z' else k()
         if isinstance(a, (Unk,)):
             return 'b'
         if isinstance(a, Choice):
